@@ -336,6 +336,10 @@ def nothing_lost(ctx, case):
     except Exception as e:  # noqa
         ctx.violation("parse_stream raised %s on a history whose tasks go on after their root action ended" % type(e).__name__, case)
         return
+    foreign = [repr(t)[:60] for t in tasks if not hasattr(t, "_nodes")]
+    if foreign:
+        ctx.violation("parse_stream yielded something that is not a Task: %s" % foreign[:3], case)
+        return
     got = sum(count_messages(t.root()) for t in tasks if t._nodes.get(t._root_level) is not None)
     if got != len(case["msgs"]):
         ctx.violation("parse_stream was fed %d messages (%d of them logged in a task after its root action had ended) but the tasks it "
@@ -356,7 +360,7 @@ def many_in_flight(ctx):
     for k, m in enumerate(starts + ends):
         done, p = p.add(to_dict(m))
         for t in done:
-            handed.append((k, t.root().task_uuid, t.is_complete()))
+            handed.append((k, t.root().task_uuid, t.is_complete()) if hasattr(t, "_nodes") else (k, repr(t)[:40], None))
     want = [(n + i, "t%d" % i, True) for i in range(n)]
     if handed != want or len(p._tasks) != 0:
         first = next((i for i, (a, b) in enumerate(zip(handed, want)) if a != b), min(len(handed), len(want)))
